@@ -195,6 +195,8 @@ pub struct Profile {
     pub hit_cap: bool,
     /// the "start depth" log line was never seen (someone removed it): boundaries unknown
     pub observer_missing: bool,
+    /// boundaries were recovered by bisection over public results instead (fallback)
+    pub boundaries_by_bisection: bool,
 }
 
 pub enum SearchError {
@@ -221,16 +223,91 @@ pub fn run_search(board: &Board, tf: &ThreeFold, limit: u64, positional: bool) -
     }
 }
 
+thread_local! {
+    /// set once a search was observed to emit no "start depth" event at all
+    static OBSERVER_DEAD: Cell<bool> = const { Cell::new(false) };
+}
+
+/// poll budget of the fallback path (no pass events): boundaries beyond it are not looked for
+const FALLBACK_CAP: u64 = 40_000;
+
+/// Fallback when the engine's "start depth" log line is gone (removed, renamed, different
+/// fields): recover the boundaries from public results only. s_1 = least k that yields a move,
+/// s_d (d >= 2) = least k after which `max_depth` reports d-1; both are monotone in k, so an
+/// exponential probe followed by bisection finds them at a cost proportional to the boundary.
+fn profile_by_bisection(board: &Board, tf: &ThreeFold, stop_depth: u64, positional: bool) -> Result<Profile, SearchError> {
+    let (result, max_depth, total_polls, expired) = run_search(board, tf, FALLBACK_CAP, positional)?;
+    let hit_cap = expired;
+    let least = |from: u64, pred: &dyn Fn(&((Option<ChessMove>, Score), u16, u64, bool)) -> bool| -> Result<Option<u64>, SearchError> {
+        let top = total_polls.min(FALLBACK_CAP) + 1;
+        // exponential probe upward from `from`
+        let (mut lo, mut step, mut hi) = (from, 1u64, None);
+        while lo + step <= top {
+            let k = lo + step;
+            if pred(&run_search(board, tf, k, positional)?) {
+                hi = Some(k);
+                break;
+            }
+            lo = k;
+            step *= 2;
+        }
+        let mut hi = match hi {
+            Some(h) => h,
+            None => {
+                if lo < top && pred(&run_search(board, tf, top, positional)?) {
+                    top
+                } else {
+                    return Ok(None);
+                }
+            }
+        };
+        if pred(&run_search(board, tf, from, positional)?) {
+            return Ok(Some(from));
+        }
+        let mut lo = lo.max(from) + 1; // pred(lo-1) is false, pred(hi) is true
+        while lo < hi {
+            let mid = (lo + hi) / 2;
+            if pred(&run_search(board, tf, mid, positional)?) {
+                hi = mid;
+            } else {
+                lo = mid + 1;
+            }
+        }
+        Ok(Some(hi))
+    };
+    let mut starts = vec![0u64];
+    if let Some(s1) = least(0, &|r| r.0 .0.is_some())? {
+        starts.push(s1);
+        for d in 1..stop_depth.min(3) {
+            match least(*starts.last().unwrap(), &|r| r.0 .0.is_some() && r.1 as u64 >= d)? {
+                Some(sd) => starts.push(sd),
+                None => break,
+            }
+        }
+    }
+    Ok(Profile { observer_missing: true, boundaries_by_bisection: true, self_terminated: !hit_cap, hit_cap, starts, total_polls, result, max_depth })
+}
+
 /// One instrumented run without a limit (up to `cap` polls), stopped when pass `stop_depth`
 /// starts.
 pub fn profile(board: &Board, tf: &ThreeFold, cap: u64, stop_depth: u64, positional: bool) -> Result<Profile, SearchError> {
+    if OBSERVER_DEAD.with(|d| d.get()) {
+        return profile_by_bisection(board, tf, stop_depth, positional);
+    }
     PASSES.with(|p| p.borrow_mut().clear());
     STOP_AT_DEPTH.with(|s| s.set(Some(stop_depth)));
+    // the first observed run of a worker uses a small cap: if the pass events are missing we
+    // find out cheaply
     let r = tracing::subscriber::with_default(PassObserver, || run_search(board, tf, cap, positional));
     STOP_AT_DEPTH.with(|s| s.set(None));
     let forced = FORCE_EXPIRE.with(|f| f.get());
     let (result, max_depth, total_polls, _expired) = r?;
     let passes = PASSES.with(|p| p.borrow().clone());
+    if passes.is_empty() {
+        // pass 0 announces itself before the first poll, so an event-less run means the line is gone
+        OBSERVER_DEAD.with(|d| d.set(true));
+        return profile_by_bisection(board, tf, stop_depth, positional);
+    }
     let mut starts = vec![];
     for (d, polls) in &passes {
         if *d as usize == starts.len() {
@@ -238,15 +315,7 @@ pub fn profile(board: &Board, tf: &ThreeFold, cap: u64, stop_depth: u64, positio
         }
     }
     let hit_cap = !forced && total_polls > cap;
-    Ok(Profile {
-        observer_missing: passes.is_empty(),
-        self_terminated: !forced && !hit_cap,
-        hit_cap,
-        starts,
-        total_polls,
-        result,
-        max_depth,
-    })
+    Ok(Profile { boundaries_by_bisection: false, observer_missing: false, self_terminated: !forced && !hit_cap, hit_cap, starts, total_polls, result, max_depth })
 }
 
 pub fn negate(s: Score) -> Score {
